@@ -15,6 +15,7 @@ open CapyV.Copy
 /-- the variable an operation writes -/
 def writes : Op → Option Nat
   | .init x _ => some x
+  | .lit x _ => some x
   | .defn _ dst _ => some dst
   | .set x _ _ => some x
   | .assign dst _ => some dst.var
@@ -57,6 +58,14 @@ theorem step_frame {st st' : Store} {op : Op} {out : List Int} (h : step st op =
   | init x cells =>
     simp [step] at h; obtain ⟨h1, _⟩ := h; subst h1
     exact lookup_update_ne x y _ st (by intro e; apply hy; simp [writes, e])
+  | lit x srcs =>
+    simp only [step] at h
+    split at h
+    · split at h
+      · simp at h; obtain ⟨h1, _⟩ := h; subst h1
+        exact lookup_update_ne x y _ st (by intro e; apply hy; simp [writes, e])
+      · simp at h
+    · simp at h
   | defn f dst src =>
     simp only [step] at h
     split at h
@@ -168,6 +177,25 @@ theorem set_cells {st st' : Store} {x off : Nat} {v : Int} {out : List Int}
       simp at hlen
       exact ⟨cells, hl, by omega, _, lookup_update_same x _ st, splice_getElem? cells off v (by omega)⟩
     · simp at hw
+
+/-- **A literal reads before it writes**: after `x = T.{ srcs }` the variable holds the values the
+sources had BEFORE the assignment — also when they are cells of `x` itself (the swap
+`p = P.{ x = p.y, y = p.x }`). -/
+theorem lit_reads_before_writing (x : Nat) (srcs : List Src) (st st' : Store) (out : List Int)
+    (h : step st (.lit x srcs) = some (st', out)) :
+    ∃ vs, srcs.mapM (readSrc st) = some vs ∧ lookup x st' = some vs := by
+  simp only [step] at h
+  split at h
+  · rename_i old vs hl hm
+    split at h
+    · simp at h; obtain ⟨h1, _⟩ := h; subst h1
+      exact ⟨vs, hm, lookup_update_same x vs st⟩
+    · simp at h
+  · simp at h
+
+/-- the swap: `p := P.{1, 2}; p = P.{ x = p.y, y = p.x }; print p.x, p.y` prints 2 1 (the pinned
+compiler built the literal in place and printed 2 2) -/
+example : run [.init 0 [1, 2], .lit 0 [.cell 0 1, .cell 0 0], .obs 0 0, .obs 0 1] = some [2, 1] := by decide
 
 /-! ### non-vacuity: a concrete program (the shape of seeded change C02_1) -/
 
